@@ -23,6 +23,10 @@ namespace rkcommon {
 
       void RKCOMMON_INTERFACE waitInternal(Task *task);
 
+      // Schedule a heap-allocated task that nobody waits for: the task system
+      // takes ownership and deletes the task some time after it has completed
+      void RKCOMMON_INTERFACE scheduleDetachedTaskInternal(Task *task);
+
       template <typename TASK_T>
       inline void parallel_for_internal(int nTasks, TASK_T &&fcn)
       {
@@ -60,15 +64,16 @@ namespace rkcommon {
 
           ~LocalTask() override = default;
 
+          // NOTE: must not 'delete this' here, the scheduler still updates
+          //       the running count of the task after ExecuteRange() returns
           void ExecuteRange(enki::TaskSetPartition, uint32_t) override
           {
             t();
-            delete this;
           }
         };
 
         auto *task = new LocalTask(std::forward<TASK_T>(fcn));
-        scheduleTaskInternal(task);
+        scheduleDetachedTaskInternal(task);
       }
 
     }  // namespace detail
